@@ -90,7 +90,7 @@ theorem C16_layout_source (c : ActCfg) (idx line : Nat) (s : Seg) (r : List Seg)
     (hu : ∀ x ∈ s :: r, action c x.type x.src = x.src) :
     tokensToString (place c idx line (s :: r)) = storedSpec (s :: r) := by
   have hv := place_value c (s :: r) idx line hu
-  have hp := place_tail c r (idx + s.gap.length + s.src.length) (line + s.dl)
+  have hp := place_tail c r (idx + s.gap.length + s.src.length) (line + s.dl + nl s.src)
     (lexTok c s.type s.src (line + s.dl) (idx + s.gap.length)) (by simp [lexTok]) (by simp [lexTok]) hg
   have hw : WfBy (·.value) (place c idx line (s :: r)) = true := by
     rw [WfBy_congr (·.value) (·.src) _ hv]; exact hp.2
@@ -271,6 +271,26 @@ theorem C16_full_false : ¬ C16_full pinnedCfg := by
   have := h w1 C16_witness_1.1
   rw [C16_witness_1.2.1, C16_witness_1.2.2] at this
   exact absurd this (by decide)
+
+/-! ## multi-line tokens (string literals, quoted names, `IS\nNOT`): covered since bd184d7; the function before that
+commit is kept as a regression example -/
+
+/-- `select 'a⏎b'||name AS g`: every token carries the line it STARTS on (`MindsDBLexer.tokenize` override) -/
+def ml1 : List Tok := [lexTok fixedCfg otherTy "select".toList 1 0, lexTok fixedCfg .quote "'a\nb'".toList 1 7,
+  lexTok fixedCfg otherTy "||".toList 2 12, lexTok fixedCfg otherTy "name".toList 2 14,
+  lexTok fixedCfg otherTy "AS".toList 2 19, lexTok fixedCfg otherTy "g".toList 2 22]
+
+/-- the repaired function stores the text verbatim; the function before bd184d7 (no `line_num += …`), fed the same
+tokens, started a new line after the literal and lost the blank before `AS` -/
+theorem C16_regression_multiline : LexInv fixedCfg ml1 ∧
+    tokensToString ml1 = "select 'a\nb'||name AS g".toList ∧ tokensToString ml1 = verbatim ml1 ∧
+    tokensToStringOld ml1 = "select 'a\nb'\n||nameAS g".toList := by decide
+
+/-- a layout with a literal spanning lines, glued to its neighbours, then a real line change -/
+def mlSegs : List Seg := [⟨"  ".toList, 0, .quote, "'x\ny'".toList⟩, ⟨[], 0, otherTy, "||".toList⟩,
+  ⟨" /*c*/".toList, 0, otherTy, "z".toList⟩, ⟨" \n\n ".toList, 2, otherTy, "is\nnot".toList⟩, ⟨" ".toList, 0, otherTy, "w".toList⟩]
+example : tokensToString (place fixedCfg 5 3 mlSegs) = "'x\ny'||      z\n   is\nnot w".toList := by decide
+example : storedSpec mlSegs = "'x\ny'||      z\n   is\nnot w".toList := by decide
 
 /-! ## non-vacuity -/
 
